@@ -779,6 +779,9 @@ def install(eng):
 
     def f_empty(eng, st, shape, dtype=None):
         k = _dtype_kind(dtype) or "real"
+        if k == "obj":
+            # object array: entries are by-value sequences (empty until stored)
+            return eng.alloc(st, ArrV(shape_of(eng, st, shape), lambda ix: ListV(items=[], etype="int"), "obj"))
         return eng.alloc(st, eng.fresh_array("empty", shape_of(eng, st, shape), k))
 
     def f_full(val):
